@@ -116,6 +116,15 @@ HEADINGS = [
     ("bold-in-list", "- # **qaa**\n- qab qac\n", True),
     ("bold-in-quote", "> ## **qaa qab**\n>\n> qac\n", True),
     ("bold-in-alert", "> [!TIP]\n> ## **qaa**\n>\n> qab\n", True),
+    ("bold-in-footnote-first", "qab[^1]\n\n[^1]: ## **qaa**\n", True),
+    ("bold-in-footnote-later", "qab[^1]\n\n[^1]: qac qad\n\n    ## **qaa qae**\n\n    qaf\n", True),
+    ("bold-in-footnote-quote", "qab[^1]\n\n[^1]: qac\n\n    > # **qaa**\n", True),
+    ("bold-in-olist-later", "1. qab\n\n   ### **qaa qac**\n\n   qad\n2. qae\n", True),
+    ("bold-in-nested-list", "- qab\n  - # **qaa**\n  - qac\n", True),
+    ("bold-in-quote-list", "> - ## **qaa**\n> - qab\n", True),
+    ("bold-in-quote-quote", "> > # **qaa qab**\n> >\n> > qac\n", True),
+    ("bold-in-tagblock", "{% t %}\n\n# **qaa**\n\nqab\n\n{% /t %}\n", True),
+    ("bold-after-table", "| qab | qac |\n| --- | --- |\n| qad | qae |\n\n## **qaa**\n", True),
     ("bold-para", "**qaa qab**\n\n# qac\n", False),
     ("bold-closing-hashes", "# **qaa** #\n\nqab\n", True),
     ("empty-bold", "# ****\n\nqaa\n", False),
